@@ -3,7 +3,7 @@
     [run] is [fold_left step_state] from [init]; [log] is the ghost history of all inputs and
     outputs; valid, vals, proposer, mkblock, cfg and me are arbitrary. *)
 From Coq Require Import List ZArith NArith Bool.
-From Kardia Require Import C03.Node C03.Spec C03.ProofsMono C03.ProofsInv C03.ProofsValid C03.Proofs C03.Open.
+From Kardia Require Import C03.Node C03.Spec C03.ProofsMono C03.ProofsInv C03.ProofsValid C03.ProofsLock C03.Proofs C03.Open C03.ToC01.
 Import ListNotations.
 Local Open Scope N_scope.
 
@@ -47,6 +47,64 @@ Theorem C03_votes_only_valid :
     exists b, held (received pre) b /\ b_hash b = bh (v_bid v) /\ valid (v_height v) b = true.
 Proof. exact votes_only_valid. Qed.
 Print Assumptions C03_votes_only_valid.
+
+(** A non-nil precommit for block id b at (h, r) is signed only if, before that moment, the node had
+    received well-signed prevotes for exactly b at (h, r) from distinct validators holding more than
+    2/3 of the height's voting power, and had been given a block with b's hash that passes
+    validation at h.  (Voting powers are non-negative: C02/C12's wf_vals.) *)
+Theorem C03_precommit_needs_polka :
+  forall valid vals proposer mkblock cfg me,
+    (forall h, Forall (fun p => (0 <= p)%Z) (vals h)) ->
+    forall (ins : list input) post pre v,
+      log (run valid vals proposer mkblock cfg me ins) = post ++ EvOut (SignVote v) :: pre ->
+      v_type v = Precommit -> bid_is_zero (v_bid v) = false ->
+      quorum_received vals (received pre) Prevote (v_height v) (v_round v) (v_bid v) /\
+      exists b, held (received pre) b /\ b_hash b = bh (v_bid v) /\ valid (v_height v) b = true.
+Proof. exact precommit_needs_polka. Qed.
+Print Assumptions C03_precommit_needs_polka.
+
+(** Lock rule: after a non-nil precommit p = (b, r), any later prevote x of the same height in a
+    round r' > r for a value with another hash (nil included) is signed only after the node received
+    a +2/3 prevote set for a value y with another hash than b in some round r'' with r < r'' <= r'. *)
+Theorem C03_lock_rule :
+  forall valid vals proposer mkblock cfg me,
+    (forall h, Forall (fun p => (0 <= p)%Z) (vals h)) ->
+    forall (ins : list input) l3 l2 l1 p x,
+      log (run valid vals proposer mkblock cfg me ins) =
+        l3 ++ EvOut (SignVote x) :: l2 ++ EvOut (SignVote p) :: l1 ->
+      v_type p = Precommit -> bid_is_zero (v_bid p) = false -> v_type x = Prevote ->
+      v_height x = v_height p -> v_round p < v_round x -> bh (v_bid x) <> bh (v_bid p) ->
+      exists r'' y, v_round p < r'' /\ r'' <= v_round x /\ bh y <> bh (v_bid p) /\
+                    quorum_received vals (received (l2 ++ EvOut (SignVote p) :: l1)) Prevote (v_height p) r'' y.
+Proof. exact lock_rule_strong. Qed.
+Print Assumptions C03_lock_rule.
+
+(** A block is committed (finalizeCommit) only if it passes validation at that height and the node
+    had received, in the single round r, well-signed precommits for one block id with that block's
+    hash from distinct validators holding more than 2/3 of the voting power. *)
+Theorem C03_commit_needs_quorum :
+  forall valid vals proposer mkblock cfg me,
+    (forall h, Forall (fun p => (0 <= p)%Z) (vals h)) ->
+    forall (ins : list input) post pre h b r,
+      log (run valid vals proposer mkblock cfg me ins) = post ++ EvOut (Commit h b r) :: pre ->
+      valid h b = true /\
+      exists id, bh id = b_hash b /\ quorum_received vals (received pre) Precommit h r id.
+Proof. exact commit_needs_quorum. Qed.
+Print Assumptions C03_commit_needs_quorum.
+
+(** Bridge to C01: in any global trace [linked] with a run of the node (every well-signed vote of
+    height h the node received had been signed earlier in the trace; the node's own signatures of
+    height h enter the trace when they are made; nothing else is attributed to the node), the
+    node's events satisfy the four obligations that C01's agreement theorem consumes
+    (ob_one_precommit, ob_precommit_polka, ob_lock, ob_monotone), block ids being read by hash. *)
+Theorem C03_node_obeys_C01 :
+  forall valid vals proposer mkblock cfg (i h : N),
+    (forall h0, Forall (fun p => (0 <= p)%Z) (vals h0)) ->
+    forall (ins : list input) (tr : Kardia.C01.Agreement.trace N),
+      linked i h tr (log (run valid vals proposer mkblock cfg (Some i) ins)) ->
+      Kardia.C01.Agreement.obeys (vals h) N N.eq_dec tr (N.to_nat i).
+Proof. exact node_obeys. Qed.
+Print Assumptions C03_node_obeys_C01.
 
 (** The POLRound sanity check of setProposal is dead code: a correctly signed proposal for the
     current height and round is accepted whatever its POLRound. *)
